@@ -126,6 +126,7 @@ def _work(args):
     """Worker task: a list of scenario indices."""
     prop, tier, seed, indices, keep_samples = args[:5]
     want_hist = args[5] if len(args) > 5 else None
+    want_env = args[6] if len(args) > 6 else None
     engine = load_engine(prop)
     faulthandler.enable()
     out = []
@@ -151,6 +152,8 @@ def _work(args):
             'harness': res.get('harness'),
             'history_before': hist_before,
         }
+        if want_env is not None and idx in want_env:
+            item['env_digests'] = res.get('env_digests')
         if res['violations'] or res.get('harness') or idx in keep_samples:
             item['scenario'] = scen
             item['sample'] = res.get('sample')
@@ -320,6 +323,20 @@ def run_check(prop, tier):
     keep = set(range(0, n_total, max(1, n_total // 4)))      # a few samples for the evidence
     k_fresh = 48 if tier == 'quick' else 400
     want_hist = set(range(3, n_total, max(1, n_total // (4 * k_fresh)))) if getattr(engine, 'PROCESS_HISTORY', False) else None
+    opt_pick = None
+    if hasattr(engine, 'classify') and os.environ.get('VERIF_NO_OPT', '') != '1':
+        # the sample that is executed again under python -O, stratified by the engine's scenario classes (known before the run, so
+        # that the workers can keep the per-call digests of exactly these scenarios)
+        k_opt0 = min(getattr(engine, 'OPT_SAMPLE', {}).get(tier, 64 if tier == 'quick' else 640), max(8, n_total // 3))
+        groups_o = {}
+        for i in range(min(n_total, 6000)):
+            groups_o.setdefault(engine.classify(make_scenario(engine, prop, tier, seed, i)), []).append(i)
+        lists_o = [groups_o[k] for k in sorted(groups_o)]
+        opt_pick, r_ = [], 0
+        while len(opt_pick) < k_opt0 and any(r_ < len(l) for l in lists_o):
+            opt_pick.extend(l[r_] for l in lists_o if r_ < len(l))
+            r_ += 1
+        opt_pick = set(opt_pick[:k_opt0])
     det_step = max(2, min(50, n_total // 8))
     det_idx = [i for i in range(n_total) if i % det_step == 1]     # >= 2 % determinism re-runs (in other worker tasks)
     results = {}
@@ -337,7 +354,7 @@ def run_check(prop, tier):
         while pos < n_total and time.time() - t_start < max_s:
             idxs = list(range(pos, min(n_total, pos + block)))
             pos += len(idxs)
-            tasks = [(prop, tier, seed, idxs[i:i + chunk], keep, want_hist) for i in range(0, len(idxs), chunk)]
+            tasks = [(prop, tier, seed, idxs[i:i + chunk], keep, want_hist, opt_pick) for i in range(0, len(idxs), chunk)]
             dets = [i for i in idxs if i in set(det_idx)]
             # determinism re-runs go into separate tasks (hence, in general, other worker processes)
             tasks += [(prop, tier, seed, [i], set()) for i in dets]
@@ -428,20 +445,10 @@ def run_check(prop, tier):
     # with -O (assert statements stripped, __debug__ False); the oracles are the same, the property must hold there as well
     opt_checked = 0
     if not harness and os.environ.get('VERIF_NO_OPT', '') != '1':
-        k_opt = min(64 if tier == 'quick' else 640, max(8, len(results) // 8))
+        k_opt = min(getattr(engine, 'OPT_SAMPLE', {}).get(tier, 64 if tier == 'quick' else 640), max(8, len(results) // 8))
         done_idx = sorted(results)
-        if hasattr(engine, 'classify'):
-            # stratified: every class of scenarios the engine distinguishes gets its share of the sample
-            groups_o = {}
-            for i in done_idx[:6000]:
-                groups_o.setdefault(engine.classify(make_scenario(engine, prop, tier, seed, i)), []).append(i)
-            pick = []
-            lists = [groups_o[k] for k in sorted(groups_o)]
-            r_ = 0
-            while len(pick) < k_opt and any(r_ < len(l) for l in lists):
-                pick.extend(l[r_] for l in lists if r_ < len(l))
-                r_ += 1
-            pick = sorted(pick[:k_opt])
+        if opt_pick is not None:
+            pick = sorted(i for i in opt_pick if i in results)
         else:
             pick = done_idx[2::max(1, len(done_idx) // k_opt)][:k_opt]
         parts = [pick[i::jobs] for i in range(jobs) if pick[i::jobs]]
@@ -463,7 +470,9 @@ def run_check(prop, tier):
                         # engines that report per-call result digests: a call that is accepted by both interpreters returns the same
                         # result in both (an AssertionError on one side is argument validation the other side does not have)
                         scen_n = make_scenario(engine, prop, tier, seed, o['index'])
-                        rn = execute_guarded(engine, scen_n)
+                        rn = {'env_digests': results[o['index']].get('env_digests')}
+                        if rn['env_digests'] is None:
+                            rn = execute_guarded(engine, scen_n)
                         v_env = env_compare_calls(prop, rn, o)
                         if v_env is not None:
                             results[o['index']]['scenario'] = dict(scen_n, pyflags='-O', env_compare=True, tier=tier)
